@@ -21,7 +21,6 @@ pub open spec fn runtime_err_at(e: JmespathError, expr: Seq<char>, offset: usize
     e.reason is Runtime && e.expression@ == expr && e.offset == offset
 }
 // T1: serde_json::Number constructors (without arbitrary_precision)
-pub uninterp spec fn f64_finite(x: f64) -> bool;
 pub uninterp spec fn num_of_f64(x: f64) -> Number;
 pub uninterp spec fn num_of_usize(n: usize) -> Number;
 #[verifier::external_body]
@@ -35,11 +34,6 @@ impl Number {
 #[verifier::external_body]
 pub fn idiom_number_from_usize(n: usize) -> (r: Number) ensures r == num_of_usize(n) { unimplemented!() }
 // T2: f64 leaf operations (uninterpreted; finiteness facts are IEEE-754)
-pub uninterp spec fn f64_abs(x: f64) -> f64;
-pub uninterp spec fn f64_ceil(x: f64) -> f64;
-pub uninterp spec fn f64_floor(x: f64) -> f64;
-pub uninterp spec fn f64_trunc(x: f64) -> f64;
-pub uninterp spec fn f64_round(x: f64) -> f64;
 pub trait F64Idioms {
     fn idiom_abs(self) -> f64;
     fn idiom_ceil(self) -> f64;
